@@ -67,6 +67,8 @@ def cases(tier, seed):
                             add(sset, rset, pf, crev, False, "R")
                     add(tuple(reversed(sset)), rset, bool(rset), True, True, "R")
                     if rset:
+                        add(sset, rset, "sonly", False, False, "R")
+                        add(sset, rset, "sonly", True, True, "R")
                         add(sset, rset, "mix", False, False, "R")
                         add(sset, rset, "mix", False, True, "R")
     # histories: models that share every name but differ in the filter body, built in ONE process
@@ -106,6 +108,9 @@ def build(case):
             L.append(f"def q_filter({', '.join(R)}, d):\n    return jnp.logical_or(d == 0, ({ssum}) % 2 == 0)")
             funcs.append("r_filter")
             funcs.append("q_filter")
+        elif case["pfilter"] == "sonly":
+            # filter on STATES only: the choices stay unrestricted (dense) although there is a sparse axis
+            L.append(f"def r_filter({', '.join(R)}):\n    return ({ssum}) != 2")
         elif case["pfilter"] == "alt":
             L.append(f"def r_filter({', '.join(R)}, d):\n    return jnp.logical_or(d == 0, ({ssum}) % 2 == 1)")
         elif case["pfilter"]:
